@@ -201,7 +201,11 @@ class LoggedModel:
     """A user model whose outputs are exactly representable small dyadic numbers,
     so that the real float arithmetic of `logar` is exact.  Logs every call."""
 
-    def __init__(self, params, kind='quad', blobs=False, box=None, ints=(), stateful=False, reuse_blob=False):
+    def __init__(self, params, kind='quad', blobs=False, box=None, ints=(), stateful=False, reuse_blob=False,
+                 int_outputs=False):
+        # int_outputs: integral log-likelihoods / log-priors are returned as Python ints (a model written
+        # with max(logl, -40) or a table of integers does that): the recorded numbers must not depend on it
+        self.int_outputs = int_outputs
         # reuse_blob: the model hands out ONE blob dictionary, refilled on every call (a legal way to
         # avoid allocations): whoever keeps the object instead of its values sees it change later
         self.reuse_blob = reuse_blob
@@ -240,10 +244,15 @@ class LoggedModel:
                 logp = -numpy.inf
         if logp == 0.0 and self.kind == 'slope':
             logp = -math.floor(abs(float(kw[self.params[0]])) * 4) / 8.0
+        if self.int_outputs:
+            if logl == math.floor(logl) and abs(logl) < 2 ** 50:
+                logl = int(logl)
+            if logp != -numpy.inf and logp == math.floor(logp):
+                logp = int(logp)
         if self.blobs:
             b0 = math.floor(float(kw[self.params[0]]) * 4) / 4.0 if not (
                 isinstance(kw[self.params[0]], float) and math.isnan(kw[self.params[0]])) else -1.0
-            blob = {'b0': b0, 'b1': float(self.ncalls) if self.stateful else logl * 2}
+            blob = {'b0': b0, 'b1': float(self.ncalls) if self.stateful else float(logl) * 2}   # blob types never vary
             out = (logl, logp, blob)
         else:
             out = (logl, logp)
